@@ -26,6 +26,7 @@ from ..selftest import Mutant
 from .c04 import proxy_fields
 
 PROP = "C03"
+TECHNIQUE = "static analysis: sync/async sibling differ over resolved callees + CFG barrier rules + truth-table evaluation of the dump-ownership condition + manager-proxy field taint + completion-order primitive scan"
 RUN = "pipefunc.map._run"
 EXPLANATION = (
     "Static analysis of pipefunc/map/_run.py and the storage classes: a sibling differ over the sync/async driver "
